@@ -9,7 +9,7 @@ job = [j for j in catalog.CHECKS[a.prop]['jobs'] if j['name'] == a.job][0]
 d = tempfile.mkdtemp(prefix='natdbg_')
 try:
     b = irbuild.Builder(d)
-    exe = b.native('dbg', job['harness'], job.get('units', irbuild.PIPELINE), check.job_defines(job, a.tier) + a.define, stubs=job.get('stubs', True), iquote=job.get('iquote', False), support=job.get('support', ()))
+    exe = b.native('dbg', job['harness'], job.get('units', irbuild.PIPELINE), check.job_defines(job, a.tier) + a.define, stubs=job.get('stubs', True), iquote=job.get('iquote', False), support=job.get('support', ()), stubs_defines=job.get('stubs_defines', ()), wrap=job.get('wrap', ()))
     os.environ['VERIF_DEBUG'] = '1'
     n = check.run_native(exe, [('v', int(x)) for x in a.vec])
     print(n['full']); print('rc', n['rc'], 'stderr:', n['err'])
